@@ -753,3 +753,40 @@ silent("c07-move-filter-locked-by-linear-scan", "C07",
      (MVD, MVD_OLD, "	amount := sdk.NewCoins()\n	for _, coin := range locked {\n		for _, denom := range msg.Denoms {\n			if denom == coin.Denom && coin.Amount.IsPositive() {\n				amount = amount.Add(coin)\n			}\n		}\n	}\n"))
 fire("c07-move-ignores-denoms", "C07", ["C07.move"],
      (MVD, MVD_OLD, "	amount := locked\n"))
+
+fire("c19-shortcut-result-inside-period", "C19", ["C19.formula"],
+     (MINTYPES, "	periodDuration := endTime.Sub(minterStart)\n", "	if totalSupply.LT(m.Amount) {\n		return sdk.OneDec()\n	}\n	periodDuration := endTime.Sub(minterStart)\n"))
+silent("c19-formula-named-intermediate", "C19",
+     (MINTYPES, "	mintedYearly := sdk.NewDecFromInt(m.Amount).MulInt64(int64(year)).QuoInt64(int64(periodDuration))\n	return mintedYearly.QuoInt(totalSupply)", "	perYear := sdk.NewDecFromInt(m.Amount).MulInt64(int64(year))\n	mintedYearly := perYear.QuoInt64(int64(periodDuration))\n	rate := mintedYearly.QuoInt(totalSupply)\n	return rate"))
+
+fire("c15-reference-id-lowercased-for-record-only", "C15", ["C15.payload"],
+     (VERSIG, "	referenceId := req.ReferenceId\n", "	referenceId := strings.ToLower(req.ReferenceId)\n"),
+     (VERSIG, "import (\n", "import (\n	\"strings\"\n"))
+silent("c15-reference-id-normalised-everywhere", "C15",
+     (VERSIG, "	referenceId := req.ReferenceId\n", "	referenceId := strings.TrimSpace(req.ReferenceId)\n"),
+     (VERSIG, "k.GetPayloadLink(ctx, req.ReferenceId)", "k.GetPayloadLink(ctx, strings.TrimSpace(req.ReferenceId))"),
+     (VERSIG, "import (\n", "import (\n	\"strings\"\n"))
+
+# ---------------- round-2 batch C derived ----------------
+PARAMS_D = "x/cfedistributor/keeper/params.go"
+fire("c11-params-memoised-in-keeper", "C11", ["C11.inventory"],
+     (KEEP_D, "		authority     string\n	}\n", "		authority     string\n		decoded       *decodedParams\n	}\n\n	decodedParams struct {\n		bz     []byte\n		params types.Params\n	}\n"),
+     (KEEP_D, "		authority:     authority,\n	}", "		authority:     authority,\n		decoded:       &decodedParams{},\n	}"),
+     (PARAMS_D, "	k.cdc.MustUnmarshal(bz, &p)\n	return p", "	if string(bz) == string(k.decoded.bz) {\n		return k.decoded.params\n	}\n	k.cdc.MustUnmarshal(bz, &p)\n	k.decoded.bz, k.decoded.params = bz, p\n	return p"))
+POOLT = "x/cfevesting/types/account_vesting_pool.go"
+fire("c12-genesis-rejects-zero-pool", "C12", ["C12.accepts"],
+     (POOLT, "	if m.Withdrawn.IsNegative() {", "	if m.InitiallyLocked.IsZero() {\n		return fmt.Errorf(\"vesting pool %s of %s has nothing locked initially\", m.Name, accountAdd)\n	}\n	if m.Withdrawn.IsNegative() {"))
+silent("c12-genesis-validation-reworded", "C12",
+     (POOLT, "	if m.Withdrawn.IsNegative() {", "	if withdrawnNegative := m.Withdrawn.IsNegative(); withdrawnNegative {"))
+fire("c14-leftovers-dropped-on-failed-sweep", ["C14", "C03"], ["C14.sweep", "C03.sweep"],
+     (DISTR, "	} else {\n		coinsToDistribute = sdk.NewDecCoins()\n\n	}\n	return prepareLeftCoinToDistribute(coinsToDistribute, source, states)", "	} else {\n		coinsToDistribute = sdk.NewDecCoins()\n\n	}\n	left := prepareLeftCoinToDistribute(sdk.NewDecCoins(), source, states)\n	if coinsToDistribute == nil {\n		return nil\n	}\n	return coinsToDistribute.Add(left...)"))
+silent("c14-leftovers-taken-first-and-kept", ["C14", "C03"],
+     (DISTR, "	} else {\n		coinsToDistribute = sdk.NewDecCoins()\n\n	}\n	return prepareLeftCoinToDistribute(coinsToDistribute, source, states)", "	} else {\n		coinsToDistribute = sdk.NewDecCoins()\n\n	}\n	left := prepareLeftCoinToDistribute(sdk.NewDecCoins(), source, states)\n	return left.Add(coinsToDistribute...)"))
+
+# ---------------- round-2 batch D derived ----------------
+fire("c17-summary-skips-zero-balance-accounts", "C17", ["C17.summary"],
+     (SUMM, "		vestingAccount := k.account.GetAccount(ctx, accAddr)\n", "		if k.bank.GetBalance(ctx, accAddr, denom).IsZero() {\n			continue\n		}\n		vestingAccount := k.account.GetAccount(ctx, accAddr)\n"))
+silent("c17-summary-type-test-as-early-continue", "C17",
+     (SUMM, "		if continuousVestingAccount, ok := vestingAccount.(*vestingtypes.ContinuousVestingAccount); ok {\n			lockedCoins := continuousVestingAccount.LockedCoins(ctx.BlockTime())", "		continuousVestingAccount, ok := vestingAccount.(*vestingtypes.ContinuousVestingAccount)\n		if !ok {\n			continue\n		}\n		{\n			lockedCoins := continuousVestingAccount.LockedCoins(ctx.BlockTime())"))
+fire("c20-pubkey-address-of-decoded-key", "C20", ["C20.inventory"],
+     (CRACC, "	err = newAccount.SetPubKey(pk)\n", "	if pk == nil || !accAddress.Equals(sdk.AccAddress(pk.Address())) {\n		return nil, sdkerrors.ErrInvalidPubKey\n	}\n	err = newAccount.SetPubKey(pk)\n"))
